@@ -42,4 +42,41 @@ theorem plans_wf : planWf estimate_rss_plan && planWf estimate_norm_plan && plan
 /-- `Normalize` never rescales the sensitivity map -/
 theorem normalize_keys_ok : normalize_keys.all (fun k => normalizeKeysAllowed.contains k) = true := by decide
 
+
+/-! ## phase 3 -/
+
+/-- the Gaussian window is `exp(-((linspace(-1, 1, W) / sigma)^2))` along the width axis (dim -2), switched off for
+`None` / `0`, multiplied onto the masked k-space: `Sens.linspaceCoord`, `Sens.gaussWeight`, `Sens.gaussianActive`,
+`Sens.acsKspace` -/
+theorem window_eq : window_linspace = windowLinspace ∧ window_guard = windowGuardClauses ∧
+    window_products = windowProducts ∧ window_axis = -2 := by decide
+
+/-- `forward` has exactly the three branches of `Sens.forwardMap`, all flowing into the one guarded division that is
+written to the sample; the ESPIRiT branch is limited to 2-D -/
+theorem forward_branches_eq : forward_branches = forwardBranches ∧ forward_output_writes = forwardOutputWrites ∧
+    espirit_rank_limit = espiritRankLimit := by decide
+
+/-- no instance / module state is written, no in-place operation on an input, no early return in the functions that
+decide the property (the only stores are on fresh locals and on the output key) -/
+theorem sens_effects_ok : sens_effects.all effectAllowed = true := by decide +kernel
+
+/-- every constructor site forwards every sensitivity-map option of the builders to the right keyword, and
+`build_mri_transforms` hands the options through unchanged -/
+theorem option_forwarding_ok : ctor_sites.all forwardingOk = true ∧
+    passthroughRequired.all (fun r => builder_passthrough.contains r) = true := by decide +kernel
+
+/-- no engine overrides `compute_sensitivity_map` -/
+theorem compute_sensitivity_map_single_def : compute_sensitivity_map_defs = computeDefs := by decide
+
+/-- which refinement model is applied -/
+theorem engine_model_choice_eq (mc h2 h3 : Bool) (nd : Int) :
+    engine_model_choice mc h2 h3 nd = modelChoice mc h2 h3 nd := by
+  by_cases h : nd = 2 <;> cases mc <;> cases h2 <;> cases h3 <;> simp [engine_model_choice, modelChoice, h]
+
+/-- the channel-first permutations are the model's and undo each other -/
+theorem engine_perms_eq : engine_perm_in_2d = permIn2d ∧ engine_perm_out_2d = permOut2d ∧
+    engine_perm_in_3d = permIn3d ∧ engine_perm_out_3d = permOut3d ∧
+    permInverse engine_perm_in_2d engine_perm_out_2d = true ∧ permInverse engine_perm_in_3d engine_perm_out_3d = true := by
+  decide
+
 end DirectVerif.Bridge.C09
